@@ -286,16 +286,15 @@ func (h *H) checkCase(n int, c *Case) (res caseResult) {
 	began := map[Pos]int{}
 	markerOK := false
 	var markerErr error
-	// An action body made only of empty blocks compiles to no code and is run as "print $0" by the
-	// plain command; any inserted statement (counter or marker) changes that, so no reference run.
+	// An action body (or END block) made only of empty blocks compiles to no code; the compiler gives
+	// it a Nop (it used not to: F-C18-3, the plain command ran it as "print $0" / "no END" while any
+	// inserted counter or marker changed that).  If that ever returns, the reference run disagrees
+	// with the plain command too: then it is not used and the transparency oracle reports the case.
 	codelessAction := before.HasCodelessAction()
 	if codelessAction {
 		res.hist = append(res.hist, "action-of-only-empty-blocks")
 	}
 	func() {
-		if codelessAction {
-			return
-		}
 		defer func() {
 			if p := recover(); p != nil {
 				res.herr = fmt.Sprintf("marker run panicked: %v\n%s", p, progText)
@@ -318,6 +317,10 @@ func (h *H) checkCase(n int, c *Case) (res caseResult) {
 			Output: &out, Error: &errb, Vars: []string{"FS", " ", "INPUTMODE", "", "OUTPUTMODE", ""}})
 		markerErr = err
 		if out.String() != plain.Stdout || (err == nil && status != plain.Status) || (err != nil && plain.Status == 0) {
+			if codelessAction {
+				res.hist = append(res.hist, "reference-run-unusable:body-of-only-empty-blocks")
+				return
+			}
 			res.herr = fmt.Sprintf("reference run disagrees with the plain command: status %d err %v out %q vs status %d out %q\n%s",
 				status, err, out.String(), plain.Status, plain.Stdout, progText)
 			return
